@@ -320,29 +320,18 @@ Definition wire_ok (m s : endpoint) : Prop :=
   (forall idx ver, in_range (ep_vocmin m) (ep_vocmax m) idx -> in_range (ep_vmin m) (ep_vmax m) ver -> fits (decision_block m idx ver)).
 
 (* the asymmetric core: every message goes over the wire, and the two ends come out as in the record-level run *)
-Lemma wire_run_eq m s : wire_ok m s ->
-  wire_run hf m s =
-   match eval_hello s m with
-   | Exc t => (Failed "peer-hung-up", Failed t)
-   | Ok _ =>
-     match master_decide m s with
-     | Exc t => (Failed t, Failed "RemoteNegotiationError")
-     | Ok d =>
-       match slave_accept s d with
-       | Exc t => (Failed "peer-hung-up", Failed t)
-       | Ok p => (Banana {| p_version := d_version d; p_vocab := d_vocab d |}, Banana p)
-       end
-     end
-   end.
+Lemma wire_run_eq m s : wire_ok m s -> wire_run hf m s = run m s.
 Proof.
-  intros (Wm & Ws & Fm & Fs & Fd). unfold wire_run.
-  rewrite (deliver_hello m Wm Fm). rewrite eval_hello_wire_eq.
-  destruct (eval_hello s m) as [v0|t0]; [|reflexivity].
+  intros (Wm & Ws & Fm & Fs & Fd). unfold wire_run, run. cbv zeta.
+  assert (Hs : bind (deliver (hello_block m) []) (fun o => eval_hello_wire s (fst o)) = eval_hello s m).
+  { rewrite (deliver_hello m Wm Fm). unfold bind. cbn [fst]. apply eval_hello_wire_eq. }
+  rewrite Hs. clear Hs.
   rewrite (deliver_hello s Ws Fs). unfold bind at 1. cbn [fst]. rewrite eval_hello_wire_eq.
   unfold master_decide. destruct (eval_hello m s) as [ver|t1] eqn:Em; unfold bind at 1; [|reflexivity].
   rewrite decide_wire_eq.
   destruct (best_overlap (ep_vocmin m) (ep_vocmax m) (ep_vocmin s) (ep_vocmax s)) as [idx|t2] eqn:Ev; [|reflexivity].
-  cbn [fst snd d_version d_vocab].
+  cbn [fst snd d_version d_vocab params_of].
+  destruct (eval_hello s m) as [v0|t0]; [|reflexivity].
   unfold eval_hello in Em. apply best_overlap_common in Em. apply best_overlap_common in Ev.
   destruct Em as (Vm & _ & _), Ev as (Im & _ & _).
   rewrite (deliver_decision m idx ver (Fd idx ver Im Vm)). unfold bind. cbn [fst].
@@ -357,12 +346,16 @@ Proof.
   destruct (i_am_master (ep_id b) (ep_id a)); [|reflexivity]. rewrite (wire_run_eq b a Oba). reflexivity.
 Qed.
 
-(* ... so agreement holds of the bytes: identical parameters iff compatible, otherwise both fail with a negotiation error *)
+(* ... so the exact three-way statement holds of the bytes: identical parameters iff compatible; both abandon, each with a
+   negotiation error, when the ranges do not meet (no decision block is ever written); and when a decision block IS written and
+   the non-decider refuses it, the decider has already switched and only loses the connection *)
 Theorem wire_agreement_exact a b :
   wire_ok a b -> wire_ok b a ->
   ep_id a <> ep_id b -> implements_own_range a -> implements_own_range b ->
   (compatible a b -> exists p, wire_negotiate hf a b = (Banana p, Banana p) /\ agreed a b p) /\
-  (~ compatible a b -> exists w1 w2, wire_negotiate hf a b = (Failed w1, Failed w2) /\ negotiation_error w1 /\ negotiation_error w2).
+  (~ ranges_meet a b -> exists w1 w2, wire_negotiate hf a b = (Failed w1, Failed w2) /\ negotiation_error w1 /\ negotiation_error w2) /\
+  (ranges_meet a b -> ~ compatible a b ->
+     exists p, best_params a b p /\ decider_first a b (wire_negotiate hf a b) = (SwitchedThenLost p, Failed "NegotiationError")).
 Proof. intros Oab Oba. rewrite (wire_negotiate_eq a b Oab Oba). apply agreement_exact. Qed.
 
 End Refine.
